@@ -122,6 +122,8 @@ class Lowerer:
         self.globals = {}      # id -> (cname, node)
         self.fields = {}       # field id -> (Record, name)
         self.lambda_count = 0
+        self.lambda_recs = {}
+        self.te.lambda_names = {}
         self.out_closures = []
         self.warnings = []
         self.vardecl_nodes = {}
@@ -403,6 +405,10 @@ class Lowerer:
         """Record for a record type, or None if external"""
         if t.kind != 'record':
             return None
+        if t.name.startswith('(lambda at'):
+            r = self.lambda_recs.get((self.te.lambda_ctx, t.name))
+            if r is not None:
+                return r
         return self.rec_by_qual.get(t.name) or self.rec_by_qual.get(self.te.record_alias.get(t.name, ''))
 
     def is_trivial_class(self, t):
